@@ -24,8 +24,10 @@ def one(patch):
 def main():
     names = sys.argv[1:]
     patches = []
+    if not names:
+        patches = sorted(glob.glob("/verif/selftest/refac_patches/*.diff"))
     for n in names:
-        if os.path.isdir(f"/tmp/refac/{n}"):
+        if n and os.path.isdir(f"/tmp/refac/{n}/REFAC_1"):
             for pd in sorted(glob.glob(f"/tmp/refac/{n}/REFAC_*/patch.diff")):
                 k = os.path.basename(os.path.dirname(pd)).split("_")[1]
                 dst = f"/verif/selftest/refac_patches/{n}_{k}.diff"
